@@ -79,7 +79,7 @@ def main():
     ok = validate_evidence(os.path.join(VERIF, "evidence", "%s.json" % pid))
     ctx.log(
         "evaluations=%d states=%d transitions=%d traces=%d outcomes=%d exhaustive=%s wall=%.1fs"
-        % (ctx.evaluations, len(ctx.states), ctx.transitions, ctx.traces, len(ctx.outcomes), ctx.exhaustive,
+        % (ctx.evaluations, len(ctx.states) + ctx.state_count, ctx.transitions, ctx.traces, len(ctx.outcomes), ctx.exhaustive,
            __import__("time").time() - ctx.t0)
     )
     if rc == 1 and paths and not a.no_confirm:
